@@ -42,7 +42,9 @@ def contains(d, s):
         return s in d
     subdict = d
     for key in levels[:-1]:
-        if key not in subdict:
+        # a value met before the last but one level
+        # can not contain a subdictionary
+        if not isinstance(subdict, dict) or key not in subdict:
             return False
         subdict = subdict[key]
     last_val = levels[-1]
